@@ -45,6 +45,7 @@ type pkgInfo struct {
 func main() {
 	repo := flag.String("repo", "/repo", "repository root")
 	out := flag.String("out", "/verif/.gen", "output directory")
+	yields := flag.Bool("yields", false, "insert a scheduling point (verifrt.Yield) at the entry of every library function that refers to a package-level variable")
 	flag.Parse()
 	os.MkdirAll(*out, 0o755)
 	overlay := map[string]string{}
@@ -236,6 +237,7 @@ func VerifInitBuiltin(pkg *Package, builtin *types.Package, conf *Config, fresh 
 	nRewritten := 0
 	srcImp := importer.ForCompiler(fset, "source", nil)
 	var rewrittenSites []string
+	var yieldSites []string
 	for _, p := range pkgs {
 		if strings.Contains(p.importPath, "/packages") {
 			continue // the importer/cache packages are driven by C20's own harness
@@ -249,14 +251,46 @@ func VerifInitBuiltin(pkg *Package, builtin *types.Package, conf *Config, fresh 
 				return !hasRange
 			})
 		}
-		if !hasRange {
+		if !hasRange && !*yields {
 			continue
 		}
 		conf := types.Config{Importer: srcImp, Error: func(error) {}}
-		info := &types.Info{Types: map[ast.Expr]types.TypeAndValue{}}
-		conf.Check(p.importPath, fset, p.asts, info)
+		info := &types.Info{Types: map[ast.Expr]types.TypeAndValue{}, Uses: map[*ast.Ident]types.Object{}}
+		tpkg, _ := conf.Check(p.importPath, fset, p.asts, info)
 		for i, f := range p.asts {
 			changed := false
+			if *yields && tpkg != nil {
+				for _, d := range f.Decls {
+					fd, ok := d.(*ast.FuncDecl)
+					if !ok || fd.Body == nil {
+						continue
+					}
+					touches := false
+					ast.Inspect(fd.Body, func(n ast.Node) bool {
+						if id, ok := n.(*ast.Ident); ok && !touches {
+							if v, ok := info.Uses[id].(*types.Var); ok && !v.IsField() && v.Pkg() != nil && v.Parent() == v.Pkg().Scope() && strings.HasPrefix(v.Pkg().Path(), modPath) {
+								touches = true
+							}
+						}
+						return !touches
+					})
+					if !touches {
+						continue
+					}
+					name := fd.Name.Name
+					if fd.Recv != nil && len(fd.Recv.List) == 1 {
+						name = types.ExprString(fd.Recv.List[0].Type) + "." + name
+					}
+					site := strings.TrimPrefix(p.importPath, modPath) + ":" + name
+					call := &ast.ExprStmt{X: &ast.CallExpr{
+						Fun:  &ast.SelectorExpr{X: ast.NewIdent("verifrt"), Sel: ast.NewIdent("Yield")},
+						Args: []ast.Expr{&ast.BasicLit{Kind: token.STRING, Value: fmt.Sprintf("%q", site)}},
+					}}
+					fd.Body.List = append([]ast.Stmt{call}, fd.Body.List...)
+					yieldSites = append(yieldSites, site)
+					changed = true
+				}
+			}
 			ast.Inspect(f, func(n ast.Node) bool {
 				rs, ok := n.(*ast.RangeStmt)
 				if !ok {
@@ -299,7 +333,7 @@ func VerifInitBuiltin(pkg *Package, builtin *types.Package, conf *Config, fresh 
 	data, _ := json.MarshalIndent(map[string]any{"Replace": overlay}, "", " ")
 	writeIfChanged(filepath.Join(*out, "overlay.json"), data)
 	meta, _ := json.MarshalIndent(map[string]any{
-		"instrumentation_gaps": gaps, "map_ranges_rewritten": rewrittenSites, "packages": len(pkgs),
+		"instrumentation_gaps": gaps, "map_ranges_rewritten": rewrittenSites, "packages": len(pkgs), "yield_sites": yieldSites,
 	}, "", " ")
 	writeIfChanged(filepath.Join(*out, "ovgen_meta.json"), meta)
 }
@@ -398,6 +432,17 @@ import (
 	"fmt"
 	"sort"
 )
+
+// Sched, when set, is called at every scheduling point (entry of a library function that refers to a
+// package-level variable); the explorer uses it to hand control to another build.
+var Sched func(site string)
+
+// Yield is a scheduling point.
+func Yield(site string) {
+	if f := Sched; f != nil {
+		f(site)
+	}
+}
 
 // Chooser is asked for a permutation of n keys at a map-range site; it returns the order as
 // a slice of indices into the sorted key list (nil = identity).
